@@ -19,7 +19,8 @@ RULE = ("Continuous and grid worlds (SpaceWorld, DiscreteWorld, LineWorld, GridW
         "joining order; in wrapping worlds the toroidal distance on positive-extent axes. Non-trivial: >= 2 agents of which "
         ">= 1 inside and >= 1 outside the box, with an agent exactly on a face or leeway != axis leeway. Distinct = digest of "
         "the case. While F5 is live, a wrapping-world query whose seam-aware answer differs from the plain one is counted "
-        "as masked ONLY IF the implementation returned exactly the plain (non-seam) answer.")
+        "as masked ONLY IF the implementation returned exactly the plain (non-seam) answer."
+        " Added in rounds 19-24: the model may be marked complete; shuffled / edited listings and random picks before a third of the queries; exact-number worlds: thirds as Fraction, integers beyond 2**53 4096 apart (any leeway form) and one apart (integer leeways spelt out).")
 ASSUMPTIONS = ["the wrap period on an axis is its extent (the modulus SpaceWorld.move uses)",
                "positions are read back from the agents' PositionComponent (recorded positions)"]
 LIVE = set()
